@@ -86,16 +86,27 @@ impl Contents {
 
         let Range { start, end } = range;
 
-        let start_char = start.character as usize;
-        let end_char = end.character as usize;
-        let start_line = start.line as usize;
-        let end_line = end.line as usize;
+        let last_line_index = self.lines.len() - 1;
+        let ends_with_newline = self.lines[last_line_index].ends_with('\n');
+        // A line beyond the end of the document denotes the end of the document
+        let clamp = |pos: &Position| {
+            if (pos.line as usize) <= last_line_index {
+                (pos.line as usize, pos.character as usize)
+            } else if ends_with_newline {
+                (last_line_index + 1, 0)
+            } else {
+                (last_line_index, usize::MAX)
+            }
+        };
+        let (start_line, start_char) = clamp(start);
+        let (end_line, end_char) = clamp(end);
         let mut merged_content = String::new();
 
         if let Some(line) = self.lines.get(start_line) {
             let mut i = 0;
             for chr in line.chars() {
-                if i < start_char {
+                // A character beyond the end of the line denotes the end of the line
+                if i < start_char && chr != '\n' {
                     merged_content.push(chr);
                 } else {
                     break;
@@ -108,14 +119,13 @@ impl Contents {
         if let Some(line) = self.lines.get(end_line) {
             let mut i = 0;
             for chr in line.chars() {
-                if i >= end_char {
+                if i >= end_char || chr == '\n' {
                     merged_content.push(chr);
                 };
                 i += chr.len_utf16();
             }
         }
 
-        let last_line_index = self.lines.len() - 1;
         if (end.line as usize) < last_line_index
             && merged_content.chars().last().unwrap_or('\0') != '\n'
         {
